@@ -487,6 +487,19 @@ fn acceptor(rep: &Reporter) {
 				class = "wrong-content";
 				rep.violation("acceptor:wrong-content", &format!("{txt} parsed as {r:?}"), json!({"engine":"ENUM","part":"acceptor","text": txt}));
 			}
+			// taking ownership of a parsed response changes nothing: same members, same bytes when written again
+			if let Ok(again) = serde_json::from_str::<Response<Value>>(&txt) {
+				let owned = again.into_owned();
+				let (a, b) = (serde_json::to_string(r).unwrap_or_default(), serde_json::to_string(&owned).unwrap_or_default());
+				if a != b || owned.jsonrpc.is_some() != r.jsonrpc.is_some() {
+					class = "into-owned-differs";
+					rep.violation(
+						&format!("roundtrip:Response:into_owned:{}", if cnt("jsonrpc") == 0 { "no-version-member" } else { "with-version-member" }),
+						&format!("{txt}: parsed and written again gives {a}; after into_owned() it gives {b}"),
+						json!({"engine":"ENUM","part":"acceptor","text": txt}),
+					);
+				}
+			}
 		}
 		local.case(i as u64, true, class);
 		if i == 70000 {
@@ -497,7 +510,7 @@ fn acceptor(rep: &Reporter) {
 
 pub fn check(rep: &Reporter) {
 	rep.set_rule(
-		"(a) every i32 code through ErrorCode::from/.code() and every defined kind through code()/from; (b) serialise→parse→equal→same bytes for Id/SubscriptionId over all strings of length ≤3 (thorough 4) over a 20-symbol alphabet (quote, backslash, controls, NUL, BMP, astral, combining) and u64 boundaries, Request/Notification/Response/ErrorObject/SubscriptionPayload over id × method × payload products; (c) Response parser vs reference predicate on all member sequences of length ≤5 (thorough 6) over 18 members (incl. an escaped spelling of \"2.0\" and of the member name id). A case is distinct by its serialised text / member sequence / code; all cases are non-trivial (each exercises a serialiser or parser).",
+		"(a) every i32 code through ErrorCode::from/.code() and every defined kind through code()/from; (b) serialise→parse→equal→same bytes for Id/SubscriptionId over all strings of length ≤3 (thorough 4) over a 20-symbol alphabet (quote, backslash, controls, NUL, BMP, astral, combining) and u64 boundaries, Request/Notification/Response/ErrorObject/SubscriptionPayload over id × method × payload products; (c) Response parser vs reference predicate (and, for accepted texts, into_owned() changing neither members nor re-serialised bytes) on all member sequences of length ≤5 (thorough 6) over 18 members (incl. an escaped spelling of \"2.0\" and of the member name id). A case is distinct by its serialised text / member sequence / code; all cases are non-trivial (each exercises a serialiser or parser).",
 	);
 	rep.assume("serde_json is trusted as the JSON layer on both sides");
 	codes(rep);
